@@ -11,13 +11,17 @@ R9.3  adaptive Simpson, by abstract execution with an uninterpreted integrand ov
 R9.4  Romberg: integrate_fixed with n rows returns the Romberg value R(n,n) (independent reference), which is exact on
       polynomials of degree <= 2n−1 (checked by substituting monomials).
 R9.5  the five Gaussian drivers are siblings: success iff two consecutive differences are below tol; Err after the table.
+R9.6  tanh–sinh driver: per table level (integer bookkeeping concrete, from the shipped row lengths) the estimate and its change are
+      updated, the loop is left only when the new error estimate is below tol (or the change is exactly 0), the estimate is 0, δ or δ²,
+      δ² only inside a two-sided window around 2 on ln δ/ln δ_prev, the test is first consulted at level >= 2, Ok iff estimate < tol.
 """
 import itertools
 
 import sympy as sp
 
-from bsa import guards, paths, sym, vecint
+from bsa import f64fold, guards, logic, paths, sym, vecint
 from bsa.hir import Missing, callee, peel, place, pp, walk
+from bsa.hir import pat_binds as hir_pat_binds
 from rules import c07
 from rules import polyint as PI
 
@@ -301,12 +305,164 @@ def check_stop_rule(F, run):
         run.check(tail.get("k") == "Call" and (callee(tail) or "").endswith("Err"), "R9.5", path, "exhausted-gives-err", F.loc(b), "exhausting the table does not return Err")
 
 
+def bind_nodes(p):
+    """All Bind nodes of a pattern (generic traversal: tuple/ref/struct sub-patterns)."""
+    if isinstance(p, dict):
+        if p.get("k") == "Bind":
+            yield p
+        for v in p.values():
+            if isinstance(v, (dict, list)):
+                yield from bind_nodes(v)
+    elif isinstance(p, list):
+        for x in p:
+            yield from bind_nodes(x)
+
+
+INT_TYPES = ("usize", "u8", "u16", "u32", "u64", "i8", "i16", "i32", "i64", "isize")
+
+
+def check_de_stop(F, run):
+    """R9.6 — the stopping rule of the tanh–sinh driver, level by level.
+
+    The loop body is explored path-sensitively once per table level with the *integer* locals (evaluation counter, enumerate index) concrete
+    — they are computed from the actual row lengths of WEIGHTS_DE — and everything else symbolic (the level's sum is the symbol AREA)."""
+    path = "integrate::integrate_core"
+    b = F.fn(path)
+    run.analysed(b)
+    where = F.loc(b)
+    st, loop = guards.first_loop(b)
+    if loop is None or loop.get("k") != "For":
+        run.broken("R9.6", path, "loop", where, "no loop over the level table")
+        return
+    rows = f64fold.table_rows(F.fn("integrate::tables::WEIGHTS_DE"))
+    consts = c07.constant_locals(F, b)
+    # integer locals and their values at loop entry
+    int_names = set()
+    for n in walk(b["body"]):
+        if n.get("k") == "LetS":
+            for q in bind_nodes(n["pat"]):
+                if q.get("ty") in INT_TYPES:
+                    int_names.add(q["name"])
+    for q in bind_nodes(loop["pat"]):
+        if q.get("ty") in INT_TYPES:
+            int_names.add(q["name"])
+    try:
+        pre = paths.explore(F, b, stop_at=st, interp_cls=GaussLoop)
+    except sym.Unsupported as u:
+        run.broken("R9.6", path, "prefix", F.loc(b, u.node if isinstance(u.node, dict) else None), str(u))
+        return
+    if len(pre) != 1:
+        run.broken("R9.6", path, "prefix", where, "the statements before the level loop branch")
+        return
+    ints = {}
+    init = {}
+    for i, nm in pre[0].interp.names.items():
+        v = pre[0].interp.env.get(i)
+        if nm in int_names and getattr(v, "is_Integer", False):
+            ints[nm] = v
+        if nm in ("error_estimate", "current_delta", "integral"):
+            init[nm] = v
+    # which loop-pattern names are the enumerate index / the row
+    pat_names = [nm for _, nm in hir_pat_binds(loop["pat"])]
+    idx_names = [nm for nm in pat_names if nm in int_names]
+    row_names = [nm for nm in pat_names if nm not in int_names]
+    if len(row_names) != 1 or len(idx_names) > 1:
+        run.broken("R9.6", path, "loop-pattern", F.loc(b, loop), "loop pattern binds %s" % pat_names)
+        return
+    A, I, D, E, T = sp.Symbol("AREA", real=True), S("integral"), S("current_delta"), S("error_estimate"), S("tol")
+    first_consult = None
+    n_levels = 0
+    for level, row in enumerate(rows):
+        vals = dict(consts)
+        vals.update(ints)
+        vals[row_names[0]] = [(sp.Symbol("w%d" % j, real=True), sp.Symbol("x%d" % j, real=True)) for j in range(len(row))]
+        for nm in idx_names:
+            vals[nm] = sp.Integer(level)
+        try:
+            lps = paths.explore(F, b, setup=c07.preset_all(b, vals), node=loop["body"], interp_cls=GaussLoop)
+        except sym.Unsupported as u:
+            run.broken("R9.6", path, "level=%d" % level, F.loc(b, u.node if isinstance(u.node, dict) else loop), str(u))
+            return
+        n_levels += 1
+        nxt = None
+        consulted = False
+        for p in lps:
+            env = {nm: p.interp.env.get(i) for i, nm in p.interp.names.items()}
+            cur_ints = {nm: env.get(nm) for nm in ints}
+            if nxt is None:
+                nxt = cur_ints
+            elif nxt != cur_ints:
+                run.broken("R9.6", path, "level=%d" % level, F.loc(b, loop), "integer locals differ between the paths of one level: %s vs %s" % (nxt, cur_ints))
+                return
+            # the running integral and the level difference are updated on every path
+            okI = sym.is_zero(env.get("integral") - (I / 2 + A))
+            okD = sym.is_zero(env.get("current_delta") - sp.Abs(A - I / 2))
+            run.check(okI and okD, "R9.6", path, "level-update:level=%d" % level, F.loc(b, loop),
+                      "after level %d: integral = %s, current_delta = %s; expected integral/2 + (level sum) and |level sum − integral/2| (the change of the estimate)"
+                      % (level, env.get("integral"), env.get("current_delta")))
+            if p.pc or isinstance(p.result, sym.Break) or env.get("error_estimate") != E:
+                consulted = True
+                cond = p.cond()
+                ee = env.get("error_estimate")
+                if isinstance(p.result, sym.Break):
+                    # a break must be justified: the new error estimate is below the tolerance (or the change is exactly zero)
+                    good = (ee == 0 and logic.entails(cond, sp.Eq(sp.Abs(A - I / 2), 0))) or logic.entails(cond, sp.Lt(ee, T))
+                    run.check(good, "R9.6", path, "break-justified:level=%d" % level, F.loc(b, loop),
+                              "the level loop is left under [%s] with error_estimate = %s: not implied by `error_estimate < tol` or a zero change" % (cond, ee))
+                dlt = sp.Abs(A - I / 2)
+                forms = [sp.Integer(0), dlt, dlt ** 2]
+                run.check(any(sym.is_zero(ee - f) for f in forms), "R9.6", path, "estimate-form:level=%d" % level, F.loc(b, loop),
+                          "error_estimate becomes %s; expected 0, the last change δ or δ² of the estimate" % ee)
+                if sym.is_zero(ee - dlt ** 2) and dlt != 0:
+                    # squaring is allowed only inside the convergence-trend window on r = ln δ / ln δ_prev
+                    rs = sp.Symbol("r_", real=True)
+                    flat = []
+                    for l in p.pc:
+                        flat += list(l.args) if isinstance(l, sp.And) else [l]
+                    lo = [l for l in flat if isinstance(l, sp.core.relational.Relational) and any(str(f.func) in ("ln", "log") for f in l.atoms(sp.Function))]
+                    win_ok = False
+                    if len(lo) >= 2:
+                        X = lo[0].lhs if lo[0].lhs.free_symbols else lo[0].rhs
+                        num, den = X.as_numer_denom()
+                        shape = (str(num.func) in ("ln", "log") and str(den.func) in ("ln", "log") and num.func == den.func
+                                 and sym.is_zero(num.args[0] - dlt) and den.args[0] == D)
+                        win_ok = shape and logic.entails(sp.And(*[l.subs(X, rs) for l in lo]), sp.And(rs > 1, rs < 3))
+                    run.check(win_ok, "R9.6", path, "square-only-in-trend-window:level=%d" % level, F.loc(b, loop),
+                              "error_estimate = δ² is taken under [%s]: not a two-sided window around 2 on ln δ / ln δ_prev" % cond)
+        if consulted and first_consult is None:
+            first_consult = level
+        ints = nxt or ints
+    run.check(first_consult is not None and first_consult >= 2, "R9.6", path, "first-stop-test-at-level>=2", F.loc(b, loop),
+              "with the shipped table (row lengths %s) the stopping test is first consulted at level %s: the trend ratio ln δ_l / ln δ_(l−1) needs two changes between "
+              "consecutive table levels (δ_0 compares the level-0 sum with the bare centre term), so no earlier than level 2"
+              % ([len(r) for r in rows], first_consult), sample="first level at which the stop test runs: %s" % first_consult)
+    run.check(first_consult is not None and first_consult < len(rows), "R9.6", path, "stop-test-reachable", F.loc(b, loop),
+              "the stopping test is never consulted for any of the %d levels" % len(rows))
+    # after the loop: Ok(integral) iff error_estimate < tol; initial estimate is not below the tolerance
+    tail = peel(b["body"].get("expr") or {})
+    try:
+        fin = paths.explore(F, b, setup=c07.preset_all(b, dict(consts)), node=tail, interp_cls=GaussLoop)
+        for p in fin:
+            if guards.is_ok(p.result):
+                run.check(p.result.args[0] == I and logic.entails(p.cond(), sp.Lt(E, T)), "R9.6", path, "ok-iff-estimate-below-tol", F.loc(b, tail),
+                          "Ok(%s) under [%s]" % (p.result.args[0], p.cond()), sample="Ok(integral) iff error_estimate < tol")
+            else:
+                run.check(guards.is_err(p.result), "R9.6", path, "exhausted-gives-err", F.loc(b, tail), "the fall-through result is %r" % (p.result,))
+    except sym.Unsupported as u:
+        run.broken("R9.6", path, "tail", F.loc(b, tail), str(u))
+    e0 = init.get("error_estimate")
+    run.check(e0 is not None and logic.entails(sp.Gt(T, 0), sp.Ge(e0, T)) , "R9.6", path, "initial-estimate-not-converged", where,
+              "error_estimate starts as %s, which is not >= tol for every positive tol: levels that skip the test could end in Ok" % e0)
+    run.floor("R9.6", path, "levels explored", n_levels, 7, where)
+
+
 def run(F, run, tier):
     check_guards(F, run)
     check_affine_map(F, run)
     check_simpson(F, run, tier)
     check_romberg(F, run, tier)
     check_stop_rule(F, run)
+    check_de_stop(F, run)
     run.assumptions += ["the integrand is uninterpreted; exact arithmetic", "error <= C·tol and evaluation counts are numerical: not decided",
                         "adaptive Simpson is explored over all accept/subdivide patterns of bounded depth"]
     expl = ("Guards are established path-sensitively for all eight routines; the affine map and result scaling are extracted from the wrapper closures; adaptive Simpson is "
